@@ -59,6 +59,16 @@ def shard(ctx):
     for kind, lab, data in [("plist.boot", "minimal-header", b"X-Patch-Length: 1\r\n"), ("plist.game", "minimal-header", b"X-Patch-Length: 1\r\n"),
                             ("plist.boot", "header-twice", b"x-patch-length: 7\r\nX-Patch-Length: 1\r\n\r\n"), ("exl", "minimal-exl", b"EXLT,2\r\n"), ("cfg", "minimal-cfg", b"<A>\r\nk\tv\r\n")]:
         jobs.append((kind, lab, data, dict(text=True, small=True)))
+    # chat logs whose offset table is not ascending (descending, alternating, all equal): an entry must not be taken to run to the
+    # end of the file (or anywhere) because its successor lies before it
+    for name, offs in (("descending", lambda n, L: [L * (n - 1 - i) for i in range(n)]), ("alternating", lambda n, L: [0 if i % 2 == 0 else L * n for i in range(n)]),
+                       ("all-equal", lambda n, L: [L] * n), ("last-first", lambda n, L: [L * i for i in range(1, n)] + [0])):
+        n, L = 6000, 18
+        body = b"".join(struct.pack("<IBBI", 1700000000 + i, 3, 0, 1) + b"msg%05d" % i for i in range(n))
+        c = 4
+        data = struct.pack("<II", c, c + n) + b"".join(struct.pack("<I", o) for o in offs(n, L))
+        data = data.ljust(8 + (c + n) * 4, b"\0") + body
+        jobs.append(("log", "absurd-log offsets " + name, data, dict(small=True)))
     for lab, data in seeds.seeds_patch(rng):
         jobs.append(("zp.apply", lab, data, dict(big_endian=True, patch=True)))
     for where in ("start", "middle", "end"):
@@ -192,7 +202,13 @@ def unwritable_targets(ctx, rng):
         "E": [dict(op="T", platform=0), dict(op="E", main=0, sub=0, fid=0, off=2, n=2), dict(op="EOF")],
         "H": [dict(op="T", platform=0), dict(op="H", fk=b"D", hk=b"V", main=0, sub=0, fid=0, data=rng.randbytes(1024)), dict(op="EOF")],
         "FA": [dict(op="T", platform=0), dict(op="FA", path=dat, offset=0, chunks=[(d, False)]), dict(op="EOF")],
+        "D": [dict(op="T", platform=0), dict(op="D", main=0, sub=0, fid=0, off=1, n=2), dict(op="EOF")],
     }
+    # the same with an apply-option chunk in front (option 1 = "ignore missing", option 2 = "ignore old mismatch", value 0 / 1):
+    # an option relaxes what it names, not every error
+    for k in list(ops_by_kind):
+        for opt, val in ((1, 1), (2, 1), (1, 0)):
+            ops_by_kind["%s+APLY(%d,%d)" % (k, opt, val)] = [dict(op="APLY", option=opt, value=val)] + ops_by_kind[k]
     for kind, ops in ops_by_kind.items():
         for obstacle in ("directory-in-place-of-file", "file-in-place-of-parent", "symlink-to-dev-full", "beyond-file-size-limit"):
             root = ctx.path("obst")
@@ -209,12 +225,11 @@ def unwritable_targets(ctx, rng):
             else:
                 os.makedirs(os.path.join(root, "sqpack", "ffxiv"))
                 big = 3_000_000  # x128 bytes = 384 MB, above the worker's RLIMIT_FSIZE of 256 MiB
-                if kind == "A":
-                    these = [ops[0], dict(ops[1], off=big), ops[2]]
-                elif kind == "E":
-                    these = [ops[0], dict(ops[1], off=big), ops[2]]
-                elif kind == "FA":
-                    these = [ops[0], dict(ops[1], offset=big * 128), ops[2]]
+                base = kind.split("+")[0]
+                if base in ("A", "E"):
+                    these = [dict(o, off=big) if o["op"] == base else o for o in ops]
+                elif base == "FA":
+                    these = [dict(o, offset=big * 128) if o["op"] == "FA" else o for o in ops]
                 else:
                     continue
             pf = ctx.write("obst.patch", zp.serialise(these))
